@@ -186,6 +186,9 @@ def tablesJson : Json :=
     ("layers", .arr (lSpecs.map fun s => Json.mkObj [
         ("name", .str s.name), ("none_is_linear", .bool s.noneIsLinear), ("hook", Json.num (s.hook : Int)),
         ("reports", .arr (((reportedSlots.lookup s.name).getD []).map Json.str).toArray),
+        ("base_kwargs", .arr (((baseKwargs.lookup s.name).getD []).map fun b => Json.mkObj [
+            ("name", .str b.name), ("default", pvToJson b.default), ("emitted", .bool b.emitted),
+            ("read", .bool b.read)]).toArray),
         ("params", .arr (s.params.map fun p => Json.mkObj [
             ("name", .str p.name), ("kind", kindToJson p.kind), ("default", argToJson p.default),
             ("required", .bool p.required), ("emitted", .bool p.emitted), ("read", .bool p.read)]).toArray)]).toArray),
@@ -301,6 +304,23 @@ def handle (j : Json) : Except String Json := do
         ("reported", .arr (((reportedSlots.lookup cls).getD []).map fun k =>
             Json.arr #[.str k, qvalToJson (slotValue h' ref k)]).toArray),
         ("heap", .arr ((List.range objs.length).map fun i => qobjToJson (h' i)).toArray)]
+  | "route_table" =>
+    -- the keys Keras' deserialiser sees on a route when the caller passes a dict with the keys `user`
+    let r ← match ← getStr j "route" with
+      | "json" => pure Route.json | "clone" => pure Route.clone | "h5" => pure Route.h5
+      | x => throw s!"unknown route {x}"
+    let user ← (← (← j.getObjVal? "user").getArr?).toList.mapM fun v => v.getStr?
+    pure <| Json.mkObj [("keys", .arr ((routeTable E r user).map Json.str).toArray)]
+  | "base_kwargs" =>
+    -- a layer built with the caller's keywords `user` for its base-class arguments: what it holds, what
+    -- get_config writes of it, what the rebuilt layer holds
+    let cls ← getStr j "cls"
+    let user ← pairsOfJson (← j.getObjVal? "user")
+    let bks := (baseKwargs.lookup cls).getD []
+    let held := heldKw bks user
+    let cfg := kwGetConfig bks held
+    pure <| Json.mkObj [("held", pvToJson (.dict held)), ("config", pvToJson (.dict cfg)),
+                        ("rebuilt", pvToJson (.dict (kwFromConfig bks cfg)))]
   | "mask" =>
     -- the QConv2D constructor's reshape on a given mask literal, and the reshape of its result
     -- (get_config -> from_config -> constructor)
